@@ -110,12 +110,12 @@ fn call_step(with_redirect: bool, allow_loop_flow: bool) {
 #[kani::unwind(4)]
 fn vk_c02_function_call_full() { call_step(false, true); }
 
-//@proof {'props': ['C02', 'C18', 'C16'], 'tier': 'quick', 'timeout': 900, 'uses': ['invoke_fn'], 'bounds': 'function with 0 definition-time redirects; enter may fail; body outcome arbitrary (status; flow in normal/return/exit) or Err - the D16 region (break/continue from the body) is assumed away', 'desc': 'function call: enter/leave paired on every path, body strictly inside, return consumed at the call boundary, exit propagates, status is the body status, a body error propagates only after the leave'}
+//@proof {'props': ['C02', 'C18', 'C16', 'C09'], 'tier': 'quick', 'timeout': 900, 'uses': ['invoke_fn'], 'bounds': 'function with 0 definition-time redirects; enter may fail; body outcome arbitrary (status; flow in normal/return/exit) or Err - the D16 region (break/continue from the body) is assumed away', 'desc': 'function call: enter/leave paired on every path, body strictly inside, return consumed at the call boundary, exit propagates, status is the body status, a body error propagates only after the leave'}
 #[kani::proof]
 #[kani::unwind(4)]
 fn vk_c02_function_call_modulo_known() { call_step(false, false); }
 
-//@proof {'props': ['C18', 'C02'], 'tier': 'quick', 'timeout': 900, 'uses': ['invoke_fn'], 'bounds': 'function with 1 definition-time redirect whose setup may fail; otherwise as above (D16 region assumed away)', 'desc': 'function call with a definition-time redirect: a redirect failure happens before the frame is entered, so nothing leaks'}
+//@proof {'props': ['C18', 'C02', 'C09'], 'tier': 'quick', 'timeout': 900, 'uses': ['invoke_fn'], 'bounds': 'function with 1 definition-time redirect whose setup may fail; otherwise as above (D16 region assumed away)', 'desc': 'function call with a definition-time redirect: a redirect failure happens before the frame is entered, so nothing leaks'}
 #[kani::proof]
 #[kani::unwind(4)]
 fn vk_c18_function_call_redirect() { call_step(true, false); }
